@@ -678,7 +678,7 @@ done:
 		}
 		if p := pf.get(other); p != nil {
 			c := make(chan QueryResult, 1)
-			go func() { c <- p.query(asserts, nil, 30000) }()
+			go func() { c <- p.query(asserts, nil, 10000) }()
 			select {
 			case r2 := <-c:
 				pf.stats.add(r2)
@@ -704,7 +704,7 @@ done:
 					}
 					best.Status = Unknown
 				}
-			case <-time.After(35 * time.Second):
+			case <-time.After(13 * time.Second):
 				p.kill()
 			}
 		}
